@@ -32,6 +32,51 @@ PI = Num(Fr('3.14159265358979323846'), Fr(1, 10 ** 20))
 WITNESSES = (('a negative number', Fr(-7, 3)), ('a tiny number', Fr(1, 10 ** 30)), ('a huge number', Fr(10 ** 30)))
 
 
+def factor_displays(repo):
+    """[(module, name, ast.Dict)] - the numeric dict displays that make up the table of conversion factors consulted
+    by the public convert_unit, the one that anchors reports first.  Usually one display (xlate.unit_table).  Where
+    the factors are kept as one display per quantity type - nested in the display convert_unit consults, or unpacked
+    into it with ``**`` - these displays together are the table."""
+    m = repo.module(MOD)
+    fn = m.functions.get('convert_unit')
+    if fn is None:
+        raise AnchorError('%s.convert_unit not found' % MOD)
+    try:
+        first = xlate.unit_table(repo)
+    except AnchorError:
+        first = None
+    out, seen = [], set()
+
+    def take(tm, nm, nd, depth=0):
+        if id(nd) in seen or depth > 3:
+            return
+        seen.add(id(nd))
+        if xlate.numeric_table(tm, nd):
+            out.append((tm, nm, nd))
+            return
+        for k, v in zip(nd.keys, nd.values):
+            if isinstance(v, ast.Dict):
+                take(tm, nm, v, depth + 1)                       # a table per quantity type inside the table
+            elif k is None and isinstance(v, (ast.Name, ast.Attribute)):
+                r = repo.resolve_expr(tm, v)                     # **_energy_factors
+                if isinstance(r, tuple) and r[0] == 'value' and isinstance(r[2], ast.Dict):
+                    take(r[1], ast.unparse(v), r[2], depth + 1)
+
+    def units_in(nodes):
+        return sum(1 for _tm, _nm, nd in nodes for k in nd.keys if k is not None and k.value in DIMENSION)
+
+    if first is None or units_in([first]) < 30:
+        for tm, nm, nd in repo.reached_tables(m, fn):
+            take(tm, nm, nd)
+        out = [c_ for c_ in out if units_in([c_])]
+        if first is None or units_in(out) > units_in([first]):
+            if not out:
+                raise AnchorError('no table of conversion factors is reached from %s.convert_unit' % MOD)
+            out.sort(key=lambda c_: -units_in([c_]))
+            return out
+    return [first]
+
+
 def interp_for_constants(repo):
     I = Interp(repo)
     for k in list(I.native):
@@ -48,11 +93,12 @@ def interp_for_constants(repo):
                 pass
     I.table_env = env
     # the tables are found by role and get canonical names in the atoms, whatever the source calls them
-    um, _nm, unode = xlate.unit_table(repo)
-    I.table_names[id(unode)] = 'unit_dict'
+    unodes = [nd for _tm, _nm, nd in factor_displays(repo)]
+    for unode in unodes:
+        I.table_names[id(unode)] = 'unit_dict'
     for fname in ('R', 'kb', 'h', 'c'):
         try:
-            tm, _n, node = const_table(repo, m, fname, exclude=(unode,))
+            tm, _n, node = const_table(repo, m, fname, exclude=unodes)
         except AnchorError:
             continue
         I.table_names[id(node)] = fname + '_dict'
@@ -80,7 +126,105 @@ def call(I, m, fname, **kw):
     fn = m.functions.get(fname)
     if fn is None:
         raise AnchorError('%s.%s not found' % (MOD, fname))
-    return I.call_function(m, fn, [], kw, name=MOD + '.' + fname)
+    try:
+        return I.call_function(m, fn, [], kw, name=MOD + '.' + fname)
+    except xlate._RaisedExc as e:
+        # a modelled exception that leaves the call (e.g. an unhashable argument of a cached function, raised before
+        # the body is entered) is what the call does
+        return e.raised
+
+
+class Watch(RankOrder):
+    """the ordering oracle of this module: ranks as in RankOrder; in addition every constant a watched atom (the
+    numeric argument, an element of an array argument) is compared with is noted, so that the rule can place a witness
+    of the argument on either side of it and on it"""
+
+    def __init__(self, ranks, watch, **kw):
+        RankOrder.__init__(self, ranks, **kw)
+        self.watch = set(watch)
+        self.seen = set()
+
+    def _watched(self, r):
+        if r.is_const() or r.iszero() or not r.is_monomial():
+            return False
+        (k, v), = r.n.t.items()
+        return v == 1 and len(k) == 1 and k[0][1] == 1 and k[0][0] in self.watch
+
+    def __call__(self, a, op, b):
+        for p_, q_ in ((a, b), (b, a)):
+            if self._watched(p_) and (q_.is_const() or q_.iszero()):
+                self.seen.add(Fr(0) if q_.iszero() else Fr(q_.const_value()))
+        return RankOrder.__call__(self, a, op, b)
+
+
+def cut_witnesses(cuts, integral=False):
+    """witness values of an argument that is compared with the constants ``cuts``: one value inside every interval the
+    constants cut the real line into, and the constants themselves (for an integer argument: the integers next to
+    each of these)"""
+    cs = sorted(set(Fr(c_) for c_ in cuts))
+    if not cs:
+        return []
+    pts = [cs[0] - max(Fr(1), abs(cs[0]))]
+    for k_, c_ in enumerate(cs):
+        pts.append(c_)
+        pts.append((c_ + cs[k_ + 1]) / 2 if k_ + 1 < len(cs) else c_ + max(Fr(1), abs(c_)))
+    if integral:
+        import math
+        out = []
+        for p_ in pts:
+            for q_ in (math.floor(p_), math.ceil(p_)):
+                if q_ not in out:
+                    out.append(q_)
+        return out
+    return pts
+
+
+def raised_is(repo, m, r, builtin):
+    """the outcome r of a call is an exception that IS a ``builtin`` (ValueError ...): the builtin itself, one of its
+    builtin subclasses, or a class of the package that derives from one of these (what ``except <builtin>`` catches)"""
+    if not isinstance(r, Raised):
+        return False
+    import builtins
+    want = getattr(builtins, builtin)
+    cache = repo.__dict__.setdefault('_c12_raised_is', {})
+    key = (m.name, r.exc, builtin)
+    if key in cache:
+        return cache[key]
+
+    def builtin_is(expr):
+        b_ = getattr(builtins, expr.split('.')[-1], None)
+        return isinstance(b_, type) and issubclass(b_, want)
+
+    def resolve(mod, expr):
+        try:
+            ent = repo.resolve_expr(mod, ast.parse(expr, mode='eval').body)
+        except (SyntaxError, Unsupported):
+            return None
+        return ent if hasattr(ent, 'base_exprs') else None
+
+    ci = resolve(m, r.exc)
+    if ci is None and not hasattr(builtins, r.exc.split('.')[-1]):
+        named = [k_ for k_ in repo.all_classes() if k_.name == r.exc.split('.')[-1]]
+        if len(named) == 1:
+            ci = named[0]
+    if ci is None:
+        res = builtin_is(r.exc)
+    else:
+        res = False
+        todo, seen = [ci], set()
+        while todo and not res:
+            k_ = todo.pop()
+            if id(k_) in seen:
+                continue
+            seen.add(id(k_))
+            for be in k_.base_exprs:
+                sup = resolve(k_.module, be)
+                if sup is not None:
+                    todo.append(sup)
+                elif builtin_is(be):
+                    res = True
+    cache[key] = res
+    return res
 
 
 def const_table(repo, m, fname, exclude=()):
@@ -127,19 +271,31 @@ def check(run, repo):
                        'agreement with CODATA is not decided, only internal consistency']
     run.undecided = ['agreement of the tabulated constants with CODATA / IUPAC values',
                      'float rounding of the arithmetic itself (identities are over the reals)']
+    # type_dict and the element tables as they stand once the module has been imported (a literal, a comprehension
+    # over a table of units per type, later updates - whatever the module does)
     type_node = m.assigns.get('type_dict', [None])[-1]
-    if not isinstance(type_node, ast.Dict):
-        raise AnchorError('type_dict literal not found')
-    type_dict = fold_value(m, type_node)
+    if type_node is None:
+        raise AnchorError('%s.type_dict not found' % MOD)
+    tables = module_tables(repo, m, ('atomic_weight', 'S_elements', 'type_dict'), text=('type_dict',))
+    type_dict = tables['type_dict']
+    if not all(isinstance(k_, str) for k_ in type_dict):
+        raise Unsupported('type_dict has keys that are not unit strings', type_node, m.relpath)
     run.table('type_dict', 'unit_dict', 'R_dict', 'kb_dict', 'h_dict', 'c_dict',
               'atomic_weight', 'S_elements', 'symmetry_dict')
-    um, _uname, unit_node = xlate.unit_table(repo)
+    displays = factor_displays(repo)
+    um, _uname, unit_node = displays[0]
+    unit_nodes = [nd for _tm, _nm, nd in displays]
     Na = fold_num(m, m.assigns['Na'][-1]) if 'Na' in m.assigns else None
     if Na is None:
         raise AnchorError('Na not found')
     ud = {}
-    for k_, num_, _v in fold_table(um, unit_node, {'Na': Na}):
-        ud[k_] = num_
+    for tm_, _nm, nd_ in displays:
+        for k_, num_, _v in fold_table(tm_, nd_, {'Na': Na}):
+            if k_ in ud and ud[k_].v != num_.v:
+                run.fail('TABLE.dupkey', 'constants.unit_dict', 'unit in two tables:%s' % k_,
+                         'unit %r has two different factors in the tables that make up the conversion table (%s and %s)'
+                         % (k_, float(ud[k_].v), float(num_.v)), tm_, nd_)
+            ud[k_] = num_
     literal_units = set(ud)
     run.floor('type_dict keys', len(type_dict), 60)
     by_type = {}
@@ -153,11 +309,24 @@ def check(run, repo):
     x = I.D.sym('x')
     # branches on the number itself are decided for a witness value of the argument (x = 1 first; a negative, a tiny
     # and a huge number further down must give the same map); the argument zero is a separate instance below
-    I.order = RankOrder({'x': 1}, const_ranks=True)
+    I.order = Watch({'x': 1}, ('x', 'y', 'x0', 'x1', 'x2', 'y0', 'y1', 'y2', 'k0', 'k1', 'k2'), const_ranks=True)
     values = {'pi': PI}
     for k, v in ud.items():
         values['unit_dict[%s]' % k] = v
     factor = {k: I.D.sym('unit_dict[%s]' % k) for k in ud}
+    # where the interpretation does not keep the rows of a display as atoms (a display per quantity type inside another
+    # display), the factors are the numbers of the literal, folded exactly from their tokens
+    for ty, us in sorted(by_type.items()):
+        lit_ = sorted(u for u in us if u in ud)
+        if ty == 'temp' or len(lit_) < 2:
+            continue
+        for u in lit_[1:]:
+            r = call(I, m, 'convert_unit', initial=lit_[0], final=u)
+            if isinstance(r, Rat) and not r.eq(factor[u] / factor[lit_[0]]) and ud[lit_[0]].v != 0 and \
+                    r.eq(C(ud[u].v / ud[lit_[0]].v)):
+                for u_ in lit_:
+                    factor[u_] = C(ud[u_].v)
+                break
     for u, ty in sorted(type_dict.items()):
         if ty == 'temp' or u in ud:
             continue
@@ -175,8 +344,9 @@ def check(run, repo):
     run.floor('unit_dict keys', len(ud), 60)
 
     # ---- duplicate keys silently shadowing entries (TABLE) -------------
-    for tname, node in (('type_dict', type_node), ('unit_dict', unit_node)):
-        tmod = um if node is unit_node else m
+    for tname, tmod, node in [('type_dict', m, type_node)] + [('unit_dict', tm_, nd_) for tm_, _nm, nd_ in displays]:
+        if not isinstance(node, ast.Dict):
+            continue
         dups = duplicate_keys(tmod, node)
         run.check(not dups, 'TABLE.dupkey', 'constants.%s' % tname, 'dup:%s' % dups,
                   'duplicate key(s) %s silently shadow an earlier entry' % dups, tmod, node)
@@ -252,40 +422,66 @@ def check(run, repo):
             return None
         return sl[0] * v + sl[1]
 
+    def wtxt(w):
+        return '%g' % float(w)
+
+    def refused(r_):
+        return raised_is(repo, m, r_, 'ValueError')
+
+    def conv(a, b, num=x):
+        return call(I, m, 'convert_unit', num=num, initial=a, final=b)
+
+    def witnessed(fixed, thunk):
+        """(name, value, outcome) of the call for the fixed witnesses of the argument and then - for as long as the
+        interpretation compares the argument with constants the rule has not placed a witness around yet - for one
+        value inside every interval these constants cut the line into and for the constants themselves.  The caller
+        clears I.order.seen before the call for x = 1."""
+        tried = {Fr(1)}
+        queue = list(fixed)
+        for _round in range(4):
+            for wname, w in queue:
+                w = Fr(w)
+                if w in tried:
+                    continue
+                tried.add(w)
+                yield wname, w, under(w, thunk)
+            queue = [('the number %s' % wtxt(w_), w_) for w_ in cut_witnesses(I.order.seen) if w_ not in tried]
+            if not queue:
+                break
+
+    first_of = {t_: sorted(us_)[0] for t_, us_ in by_type.items()}
     for a in units:
         for b in units:
             ta, tb = type_dict[a], type_dict[b]
-            if ta != tb and not thorough:
-                # quick: one representative of every foreign type
-                if b != sorted(by_type[tb])[0]:
-                    continue
-            r = call(I, m, 'convert_unit', num=x, initial=a, final=b)
+            I.order.seen.clear()
+            r = conv(a, b)
             key = 'pair:%s->%s' % (a, b)
             if ta != tb:
-                run.check(isinstance(r, Raised) and r.exc == 'ValueError', 'ORDER.refuse',
-                          'constants.convert_unit', key,
+                # every cross-type pair (an exception made for particular unit names is invisible to a sample); the
+                # repetition for a negative argument is sampled in the quick tier, a constant the argument is compared
+                # with is followed up for every pair
+                run.check(refused(r), 'ORDER.refuse', 'constants.convert_unit', key,
                           'conversion between quantity types %s and %s is not refused with '
                           'ValueError (got %r)' % (ta, tb, r), m, cu)
-                if thorough or a == sorted(by_type[ta])[0]:
-                    rw = under(WITNESSES[0][1], lambda: call(I, m, 'convert_unit', num=x, initial=a, final=b))
-                    run.check(isinstance(rw, Raised) and rw.exc == 'ValueError', 'ORDER.refuse', 'constants.convert_unit',
-                              key + ' for %s' % WITNESSES[0][0], 'conversion of %s between quantity types %s and %s is '
-                              'not refused with ValueError (got %r)' % (WITNESSES[0][0], ta, tb, rw), m, cu)
+                fixed = WITNESSES[:1] if thorough or (a == first_of[ta] and b == first_of[tb]) else ()
+                for wname, w, rw in witnessed(fixed, lambda: conv(a, b)):
+                    run.check(refused(rw), 'ORDER.refuse', 'constants.convert_unit',
+                              key + ' for %s' % wname, 'conversion of %s (x = %s) between quantity types %s and %s is '
+                              'not refused with ValueError (got %r)' % (wname, wtxt(w), ta, tb, rw), m, cu)
                 continue
             if isinstance(r, Raised) or r is None:
                 run.fail('SHAPE.convert', 'constants.convert_unit', key,
                          'same-type conversion does not return a value (%r)' % (r,), m, cu)
                 continue
-            # one map for every number: the same conversion for a negative, a tiny and a huge argument
+            # one map for every number: the same conversion for a negative, a tiny and a huge argument, and on either
+            # side of every constant the argument is compared with
             last = b == sorted(by_type[tb])[-1]
-            for k_, (wname, w) in enumerate(WITNESSES):
-                if k_ and not (thorough or last or ta == 'temp'):
-                    continue
-                rw = under(w, lambda: call(I, m, 'convert_unit', num=x, initial=a, final=b))
+            fixed = [wt_ for k_, wt_ in enumerate(WITNESSES) if not k_ or thorough or last or ta == 'temp']
+            for wname, w, rw in witnessed(fixed, lambda: conv(a, b)):
                 run.check(alike(rw, r), 'SHAPE.temp' if ta == 'temp' else 'SHAPE.convert', 'constants.convert_unit',
                           '%s for %s' % (key, wname),
                           'for %s (x = %s) the conversion is %r, for x = 1 it is %r: not one %s map of the argument'
-                          % (wname, show_(C(w)), rw, r, 'affine' if ta == 'temp' else 'proportional'), m, cu)
+                          % (wname, wtxt(w), rw, r, 'affine' if ta == 'temp' else 'proportional'), m, cu)
             scalar[(a, b)] = r
             if ta == 'temp':
                 temp_maps[(a, b)] = r
@@ -319,7 +515,7 @@ def check(run, repo):
     for a, b in (('J', 'm'), ('C', 'J'), ('s', 'K')):
         if a in type_dict and b in type_dict:
             z = call(I, m, 'convert_unit', num=C(0), initial=a, final=b)
-            run.check(isinstance(z, Raised) and z.exc == 'ValueError', 'ORDER.refuse', 'constants.convert_unit',
+            run.check(refused(z), 'ORDER.refuse', 'constants.convert_unit',
                       'zero:%s->%s' % (a, b), 'conversion of the number zero between quantity types is not refused '
                       '(got %r)' % (z,), m, cu)
 
@@ -335,29 +531,48 @@ def check(run, repo):
             I.int_syms.update(names)
         return arr
 
+    def array_case(kind, names, ranks, a, b, key):
+        arr = array_of(names, ranks, kind)
+        before = list(arr.items)
+        ra = conv(a, b, arr)
+        want = [image(scalar[(a, b)], v_) for v_ in before]
+        ok = isinstance(ra, ListV) and len(ra) == 3 and all(isinstance(p_, Rat) and isinstance(q_, Rat) and p_.eq(q_)
+                                                            for p_, q_ in zip(ra.items, want))
+        run.check(ok, 'SHAPE.convert', 'constants.convert_unit', key,
+                  'an array of %s numbers (%s) is not converted element by element (got %r, the map of the numbers '
+                  'gives %r)' % (kind, ', '.join('%s = %s' % (n_, wtxt(w_)) for n_, w_ in zip(names, ranks)), ra, want),
+                  m, cu)
+        run.check(all(p_ is q_ or (isinstance(p_, Rat) and p_.eq(q_)) for p_, q_ in zip(arr.items, before)) and
+                  len(arr.items) == 3, 'EFFECT.argument', 'constants.convert_unit', key,
+                  'the array handed in is modified by the conversion (now %r)' % (arr,), m, cu)
+
     for kind, names, ranks in (('float', ('x0', 'x1', 'x2'), (Fr(-20), Fr(1, 2), Fr(10 ** 9))),
                                ('int', ('k0', 'k1', 'k2'), (-20, 1, 300))):
-        for a, b in (('J', 'kcal'), ('C', 'K'), ('K', 'C'), ('K', 'R'), ('kPa', 'atm'), ('J', 'kJ')):
+        for a, b in (sorted(scalar) if thorough else
+                     (('J', 'kcal'), ('C', 'K'), ('K', 'C'), ('K', 'R'), ('kPa', 'atm'), ('J', 'kJ'), ('eV', 'J'),
+                      ('kg', 'amu'), ('F', 'C'))):
             if (a, b) not in scalar:
                 continue
-            arr = array_of(names, ranks, kind)
-            before = list(arr.items)
-            ra = call(I, m, 'convert_unit', num=arr, initial=a, final=b)
-            want = [image(scalar[(a, b)], v_) for v_ in before]
             key = 'array:%s->%s' % (a, b) if kind == 'float' else '%s array:%s->%s' % (kind, a, b)
-            ok = isinstance(ra, ListV) and len(ra) == 3 and all(isinstance(p_, Rat) and isinstance(q_, Rat) and p_.eq(q_)
-                                                                for p_, q_ in zip(ra.items, want))
-            run.check(ok, 'SHAPE.convert', 'constants.convert_unit', key,
-                      'an array of %s numbers is not converted element by element (got %r, the map of the numbers '
-                      'gives %r)' % (kind, ra, want), m, cu)
-            run.check(all(p_ is q_ or (isinstance(p_, Rat) and p_.eq(q_)) for p_, q_ in zip(arr.items, before)) and
-                      len(arr.items) == 3, 'EFFECT.argument', 'constants.convert_unit', key,
-                      'the array handed in is modified by the conversion (now %r)' % (arr,), m, cu)
+            I.order.seen.clear()
+            array_case(kind, names, ranks, a, b, key)
+            # the elements are compared with constants: the same array with elements on either side of each of them
+            tried = set(Fr(w_) for w_ in ranks)
+            for _round in range(3):
+                pts = [w_ for w_ in cut_witnesses(I.order.seen, integral=kind == 'int') if Fr(w_) not in tried]
+                if not pts:
+                    break
+                tried.update(Fr(w_) for w_ in pts)
+                while len(pts) % 3:
+                    pts.append(pts[-1])
+                for j_ in range(0, len(pts), 3):
+                    array_case(kind, names, pts[j_:j_ + 3], a, b,
+                               '%s with elements (%s)' % (key, ', '.join(wtxt(w_) for w_ in pts[j_:j_ + 3])))
     for a, b in (('J', 'm'), ('K', 'J'), ('Pa', 'K')):
         if a in type_dict and b in type_dict and type_dict[a] != type_dict[b]:
             arr = array_of(('x0', 'x1', 'x2'), (Fr(-20), Fr(1, 2), Fr(10 ** 9)), 'float')
             ra = call(I, m, 'convert_unit', num=arr, initial=a, final=b)
-            run.check(isinstance(ra, Raised) and ra.exc == 'ValueError', 'ORDER.refuse', 'constants.convert_unit',
+            run.check(refused(ra), 'ORDER.refuse', 'constants.convert_unit',
                       'array:%s->%s' % (a, b), 'conversion of an array between quantity types is not refused with '
                       'ValueError (got %r)' % (ra,), m, cu)
     # nothing is remembered between calls: a second number, a second array, the first one again
@@ -383,7 +598,7 @@ def check(run, repo):
                   'second array gives %r (expected %r)' % (r1, r2, r3, s2, ws), m, cu)
     # num omitted -> factor only
     r = call(I, m, 'convert_unit', initial='J', final='kJ')
-    run.check(isinstance(r, Rat) and r.eq(I.D.sym('unit_dict[kJ]') / I.D.sym('unit_dict[J]')),
+    run.check(isinstance(r, Rat) and 'kJ' in factor and 'J' in factor and r.eq(factor['kJ'] / factor['J']),
               'SHAPE.convert', 'constants.convert_unit', 'num-omitted',
               'omitting num does not return the bare conversion factor', m, m.functions['convert_unit'])
     for bad in (('bogus', 'J'), ('J', 'bogus')):
@@ -535,10 +750,15 @@ def check(run, repo):
             return False
 
     def const_fn(fname, keys, **extra):
+        """{key: (value, folded value)} of the public function for every key of its table: the keys of the literal and
+        every documented unit the function answers (a row that is derived from another row after the literal is a row
+        like any other)"""
         out = {}
-        for k in keys:
+        for k in list(keys) + [k_ for k_ in DOCUMENTED.get(fname, ()) if k_ not in keys]:
             r = call(I, m, fname, units=k, **extra)
             values.update(I.table_atoms)
+            if k not in keys and not isinstance(r, Rat):
+                continue            # not a unit of this table (any more): counted by the floor
             if isinstance(r, Raised) or r is None:
                 run.fail('SHAPE.const', 'constants.%s' % fname, 'key:%s' % k,
                          '%s(%r) does not return a value (%r)' % (fname, k, r), m, m.functions[fname])
@@ -551,7 +771,7 @@ def check(run, repo):
         return out
 
     def table_keys(fname):
-        tm, _srcname, node = const_table(repo, m, fname, exclude=(unit_node,))
+        tm, _srcname, node = const_table(repo, m, fname, exclude=unit_nodes)
         tn = fname + '_dict'        # canonical atom prefix (see interp_for_constants)
         table_mod[id(node)] = tm
         dups = duplicate_keys(tm, node)
@@ -563,15 +783,16 @@ def check(run, repo):
     kn, kbkeys, kbnode = table_keys('kb')
     hn, hkeys, hnode = table_keys('h')
     cn, ckeys, cnode = table_keys('c')
-    run.floor('R keys', len(Rkeys), 16)
-    run.floor('kb keys', len(kbkeys), 7)
-    run.floor('h keys', len(hkeys), 5)
     Rv = const_fn('R', Rkeys)
     kbv = const_fn('kb', kbkeys)
     hv = const_fn('h', hkeys)
     hbar = const_fn('h', hkeys, bar=True)
     cv = const_fn('c', ckeys)
-    for k in hkeys:
+    run.floor('R keys', len(Rv), 16)
+    run.floor('kb keys', len(kbv), 7)
+    run.floor('h keys', len(hv), 5)
+    run.floor('c keys', len(cv), 2)
+    for k in sorted(hv):
         if k in hv and k in hbar:
             ok = same(hbar[k][0], hv[k][0] / (C(2) * I.D.sym('pi')))
             run.check(ok, 'REF.hbar', 'constants.h', 'bar:%s' % k, 'h(bar=True) is not h/(2 pi)', m,
@@ -621,9 +842,19 @@ def check(run, repo):
             continue
         rel('constants.h', got, want, 'h[%s]' % k,
             'h(%r) is not h(J s) converted through unit_dict' % k, hnode, 'TABLE.const')
-    if 'm/s' in cv and 'cm/s' in cv:
-        rel('constants.c', cv['cm/s'][1], cv['m/s'][1] * ud['cm'], 'c[cm/s]', 'c(cm/s) is not c(m/s)*100',
-            cnode, 'TABLE.const')
+    if 'm/s' not in cv:
+        raise AnchorError('SI entry of the c table not found')
+    for k, (_, got) in sorted(cv.items()):
+        # every key of the c table: a length per time, converted from the SI value through the unit table
+        len_u, _sep, time_u = k.partition('/')
+        if k == 'm/s':
+            continue
+        if type_dict.get(len_u) == 'length' and type_dict.get(time_u) == 'time' and len_u in ud and time_u in ud:
+            rel('constants.c', got, cv['m/s'][1] * ud[len_u] / ud[time_u], 'c[%s]' % k,
+                'c(%r) is not c(m/s) converted through unit_dict' % k, cnode, 'TABLE.const')
+        else:
+            run.note('c(%r): the unit is not a length per time of the conversion table; the value is not decided' % k,
+                     table_mod.get(id(cnode), m), cnode)
 
     # P0, T0, V0, m_e, m_p: SI literal passed through convert_unit, for every unit of the type
     def through_convert(fname, ty, base_unit, base_val=None):
@@ -675,15 +906,14 @@ def check(run, repo):
               'T0 is not 298.15 K', m, m.functions['T0'])
     # V0 == R*T0/P0 in SI
     r = call(I, m, 'V0', units='m3')
-    want = I.D.sym('%s[J/mol/K]' % Rn) * C(Fr('298.15')) / \
-        (C(1) * I.D.sym('unit_dict[Pa]') / I.D.sym('unit_dict[bar]'))
+    want = Rv['J/mol/K'][0] * C(Fr('298.15')) / (C(1) * factor['Pa'] / factor['bar'])
     run.check(same(r, want), 'REF.V0', 'constants.V0', 'V0[m3]',
               'V0 is not R*T0/P0 (got %r)' % (r,), m, m.functions['V0'])
 
     # ---- spectroscopic helpers ------------------------------------------
     helpers(run, repo, I, m, values, same)
     # ---- element tables ---------------------------------------------------
-    elements(run, repo, m)
+    elements(run, repo, m, tables)
     run.sample({'temperature_maps': {'%s->%s' % k: [str(v[0]), str(v[1])] for k, v in sorted(aff.items())}})
     run.extra['pairs_checked'] = pairs_ok
 
@@ -701,9 +931,87 @@ def helpers(run, repo, I, m, values, same):
 
     def app(name, arg):
         fn = m.functions[name]
-        p = [a.arg for a in fn.args.args]
-        return I.call_function(m, fn, [arg], {}, name=MOD + '.' + name)
+        try:
+            return I.call_function(m, fn, [arg], {}, name=MOD + '.' + name)
+        except xlate._RaisedExc as e:
+            return e.raised         # a modelled exception that leaves the call is what the call does
 
+    # one map for every number: the helper gives the same function of its argument for a negative, a tiny and a huge
+    # argument as for x = 1
+    every = dict(('%s_to_%s' % k_, v_) for k_, v_ in fns.items())
+    for extra in ('debye_to_einstein', 'einstein_to_debye', 'wavenumber_to_inertia', 'inertia_to_temp'):
+        if extra not in m.functions:
+            raise AnchorError('%s.%s not found' % (MOD, extra))
+        every[extra] = extra
+    seen = getattr(I.order, 'seen', set())           # constants the argument is compared with (Watch)
+    for name in sorted(every):
+        seen.clear()
+        r1 = app(name, x)
+        tried = {Fr(1)}
+        queue = list(WITNESSES)
+        for _round in range(4):
+            for wname, w in queue:
+                if Fr(w) in tried:
+                    continue
+                tried.add(Fr(w))
+                old = I.order.ranks.get('x')
+                I.order.ranks['x'] = w
+                try:
+                    rw = app(name, x)
+                finally:
+                    I.order.ranks['x'] = old
+                run.check(isinstance(rw, Rat) and isinstance(r1, Rat) and rw.eq(r1), 'SHAPE.helper',
+                          'constants.%s' % name, 'argument: %s' % wname,
+                          'for %s (x = %g) %s(x) is %r, for x = 1 it is %r: not one function of the argument'
+                          % (wname, float(w), name, rw, r1), m, m.functions[name])
+            # the argument is compared with constants: a witness on either side of each of them and on them
+            queue = [('the number %g' % float(w_), w_) for w_ in cut_witnesses(seen) if Fr(w_) not in tried]
+            if not queue:
+                break
+    # arrays: every helper maps an array element by element (float and integer elements, of either sign and of very
+    # different size), returns a new array and leaves the caller's array alone
+    from ..xlate import ListV as _LV
+    cases = [(kind, names, ranks, name, '')
+             for kind, names, ranks in (('float', ('x0', 'x1'), (Fr(-20), Fr(10 ** 9))), ('int', ('k0', 'k1'), (-20, 300)))
+             for name in sorted(every)]
+    followed = set()
+    while cases:
+        kind, names, ranks, name, suffix = cases.pop(0)
+        seen.clear()
+        xs = [I.D.sym(n_) for n_ in names]
+        I.order.ranks.update(dict(zip(names, ranks)))
+        if kind == 'int':
+            I.int_syms.update(names)
+        arr = _LV(list(xs))
+        arr.is_array = True
+        arr.dtype = kind
+        r = app(name, arr)
+        r1 = app(name, x)
+        sl = r1.split_linear('x') if isinstance(r1, Rat) else None
+        if sl is not None:
+            each = [sl[0] * v + sl[1] for v in xs]           # the (verified) map of the numbers at the element
+        else:
+            each = [app(name, v) for v in xs]
+        ok = isinstance(r, _LV) and len(r) == 2 and all(isinstance(p_, Rat) and isinstance(q_, Rat) and p_.eq(q_)
+                                                          for p_, q_ in zip(r.items, each))
+        key = ('array argument' if kind == 'float' else '%s array argument' % kind) + suffix
+        run.check(ok, 'BRANCH-TWIN.helper', 'constants.%s' % name, key,
+                  '%s of an array of %s numbers is %r, element by element %r' % (name, kind, r, each), m,
+                  m.functions[name])
+        run.check(len(arr.items) == 2 and all(p_ is q_ for p_, q_ in zip(arr.items, xs)),
+                  'EFFECT.argument', 'constants.%s' % name, key,
+                  '%s modifies the array it was given (now %r): a second use of the caller\'s array sees converted '
+                  'values' % (name, arr), m, m.functions[name])
+        # the elements are compared with constants: the same array with elements on either side of each of them
+        pts = [w_ for w_ in cut_witnesses(seen, integral=kind == 'int') if (kind, name, Fr(w_)) not in followed]
+        if pts and len(followed) < 200:
+            followed.update((kind, name, Fr(w_)) for w_ in pts)
+            if len(pts) % 2:
+                pts.append(pts[-1])
+            for j_ in range(0, len(pts), 2):
+                cases.append((kind, names, tuple(pts[j_:j_ + 2]), name,
+                              ' with elements (%s)' % ', '.join('%g' % float(w_) for w_ in pts[j_:j_ + 2])))
+    # compositions: mutually inverse and transitive
     for a, b in itertools.combinations(kinds, 2):
         r = app(fns[(b, a)], app(fns[(a, b)], x))
         run.check(same(r, x), 'ALG.helper.inverse', 'constants.%s' % fns[(a, b)],
@@ -721,58 +1029,15 @@ def helpers(run, repo, I, m, values, same):
                   '%s via %s' % (fns[(a, c3)], b),
                   '%s(%s(x)) differs from %s(x)' % (fns[(b, c3)], fns[(a, b)], fns[(a, c3)]), m,
                   m.functions[fns[(a, c3)]])
-    # one map for every number: the helper gives the same function of its argument for a negative, a tiny and a huge
-    # argument as for x = 1
-    every = dict(('%s_to_%s' % k_, v_) for k_, v_ in fns.items())
-    for extra in ('debye_to_einstein', 'einstein_to_debye', 'wavenumber_to_inertia', 'inertia_to_temp'):
-        if extra not in m.functions:
-            raise AnchorError('%s.%s not found' % (MOD, extra))
-        every[extra] = extra
-    for name in sorted(every):
-        r1 = app(name, x)
-        for wname, w in WITNESSES:
-            old = I.order.ranks.get('x')
-            I.order.ranks['x'] = w
-            try:
-                rw = app(name, x)
-            finally:
-                I.order.ranks['x'] = old
-            run.check(isinstance(rw, Rat) and isinstance(r1, Rat) and rw.eq(r1), 'SHAPE.helper', 'constants.%s' % name,
-                      'argument: %s' % wname, 'for %s %s(x) is %r, for x = 1 it is %r: not one function of the argument'
-                      % (wname, name, rw, r1), m, m.functions[name])
-    # arrays: every helper maps an array element by element (float and integer elements, of either sign and of very
-    # different size), returns a new array and leaves the caller's array alone
-    from ..xlate import ListV as _LV
-    for kind, names, ranks in (('float', ('x0', 'x1'), (Fr(-20), Fr(10 ** 9))), ('int', ('k0', 'k1'), (-20, 300))):
-        for name in sorted(every):
-            xs = [I.D.sym(n_) for n_ in names]
-            I.order.ranks.update(dict(zip(names, ranks)))
-            if kind == 'int':
-                I.int_syms.update(names)
-            arr = _LV(list(xs))
-            arr.is_array = True
-            arr.dtype = kind
-            r = app(name, arr)
-            r1 = app(name, x)
-            sl = r1.split_linear('x') if isinstance(r1, Rat) else None
-            if sl is not None:
-                each = [sl[0] * v + sl[1] for v in xs]           # the (verified) map of the numbers at the element
-            else:
-                each = [app(name, v) for v in xs]
-            ok = isinstance(r, _LV) and len(r) == 2 and all(isinstance(p_, Rat) and isinstance(q_, Rat) and p_.eq(q_)
-                                                              for p_, q_ in zip(r.items, each))
-            key = 'array argument' if kind == 'float' else '%s array argument' % kind
-            run.check(ok, 'BRANCH-TWIN.helper', 'constants.%s' % name, key,
-                      '%s of an array of %s numbers is %r, element by element %r' % (name, kind, r, each), m,
-                      m.functions[name])
-            run.check(len(arr.items) == 2 and all(p_ is q_ for p_, q_ in zip(arr.items, xs)),
-                      'EFFECT.argument', 'constants.%s' % name, key,
-                      '%s modifies the array it was given (now %r): a second use of the caller\'s array sees converted '
-                      'values' % (name, arr), m, m.functions[name])
     # textbook anchors (REF): E = h nu = kB T = h c nu~  (cm/s because wavenumbers are in 1/cm)
-    h = I.D.sym('h_dict[J s]')
-    kb = I.D.sym('kb_dict[J/K]')
-    c_cm = I.D.sym('c_dict[cm/s]')
+    # the constants are what the public accessors return (verified against their definitions above), whichever row of
+    # whichever table holds them
+    h = call(I, m, 'h', units='J s')
+    kb = call(I, m, 'kb', units='J/K')
+    c_cm = call(I, m, 'c', units='cm/s')
+    for nm_, v_ in (('h(J s)', h), ('kb(J/K)', kb), ('c(cm/s)', c_cm)):
+        if not isinstance(v_, Rat):
+            raise AnchorError('%s.%s does not return a number (%r)' % (MOD, nm_, v_))
     ref = {('freq', 'energy'): x * h, ('temp', 'energy'): x * kb, ('wavenumber', 'energy'): x * h * c_cm}
     for (a, b), want in ref.items():
         r = app(fns[(a, b)], x)
@@ -809,7 +1074,7 @@ def helpers(run, repo, I, m, values, same):
         vals.update(I.table_atoms)
         vals['x'] = Num(1)
         got = eval_num(r, vals)
-        hS, kS = vals['h_dict[J s]'], vals['kb_dict[J/K]']
+        hS, kS = eval_num(h, vals), eval_num(kb, vals)
         want = hS * hS / (Num(8) * PI * PI * kS)
         dev = abs(got.v / want.v - 1)
         tol = 2 * (got.rel() + want.rel())
@@ -821,11 +1086,11 @@ def helpers(run, repo, I, m, values, same):
                           'want': float(want.v), 'rel_dev': float(dev), 'tol': float(tol)})
 
 
-def module_tables(repo, m, names):
+def module_tables(repo, m, names, text=()):
     """the element tables as they stand once the module has been imported: the module body is interpreted statement by
     statement (a literal, later ``update`` calls and item assignments, a helper function that is handed the table, an
     alias, rows derived from other rows - whatever the module does), and the final value of each name is read.
-    -> {name: {key: Fraction}}"""
+    -> {name: {key: Fraction}}; the tables named in ``text`` hold strings: {key: str}"""
     I = Interp(repo)
     fr = xlate.Frame(I, m, {}, None, None)
     for st in m.tree.body:
@@ -853,6 +1118,11 @@ def module_tables(repo, m, names):
                 k = int(kv) if kv.denominator == 1 else float(kv)
             if not isinstance(k, (str, int, float)) or isinstance(k, bool):
                 raise Unsupported('key %r of %s.%s' % (k, m.name, tname), None, m.relpath)
+            if tname in text:
+                if not isinstance(v, str):
+                    raise Unsupported('entry %r of %s.%s is not a text (%r)' % (k, m.name, tname, v), None, m.relpath)
+                tab[k] = v
+                continue
             if not (isinstance(v, Rat) and (v.is_const() or v.iszero())):
                 raise Unsupported('entry %r of %s.%s is not a number (%r)' % (k, m.name, tname, v), None, m.relpath)
             tab[k] = Fr(0) if v.iszero() else v.const_value()
@@ -888,8 +1158,7 @@ def module_tables(repo, m, names):
     return out
 
 
-def elements(run, repo, m):
-    tables = module_tables(repo, m, ('atomic_weight', 'S_elements'))
+def elements(run, repo, m, tables):
     for tname, floor in (('atomic_weight', 117), ('S_elements', 92)):
         node = m.assigns.get(tname, [None])[-1]
         tab = tables[tname]
@@ -985,6 +1254,17 @@ def elements(run, repo, m):
                       pm, pf)
 
 
+# the units the constant functions document (read off their docstrings once; a unit the function no longer answers is
+# not an instance, the floors count what is left)
+DOCUMENTED = {
+    'R': ('J/mol/K', 'kJ/mol/K', 'L kPa/mol/K', 'cm3 kPa/mol/K', 'm3 Pa/mol/K', 'cm3 MPa/mol/K', 'm3 bar/mol/K',
+          'L bar/mol/K', 'L torr/mol/K', 'cal/mol/K', 'kcal/mol/K', 'L atm/mol/K', 'cm3 atm/mol/K', 'eV/K', 'Eh/K',
+          'Ha/K'),
+    'kb': ('J/K', 'kJ/K', 'eV/K', 'cal/K', 'kcal/K', 'Eh/K', 'Ha/K'),
+    'h': ('J s', 'kJ s', 'eV s', 'Eh s', 'Ha s'),
+    'c': ('m/s', 'cm/s'),
+}
+
 # physical dimension of every unit symbol the conversion table admits (frozen after reading the definitions of the
 # symbols; a symbol missing here is reported as undecided, not as a finding)
 DIMENSION = {}
@@ -1003,6 +1283,8 @@ for _d, _us in (
 K_ = 'pmutt/constants.py'
 _TEMP = "        # Evaluating each combination\n"
 _LIN = "        result = num * unit_dict[final] / unit_dict[initial]"
+_TYPES = "    # Check that the unit types are the same\n"
+_W2T = "    return wavenumber * c('cm/s') * h('J s') / kb('J/K')\n"
 _AW_END = '"""dict : Atomic weight. The key can be the atomic number, the element symbol,\nor the element name"""\n'
 MUTANTS = [
     {'name': 'the caller\'s array is scaled in place', 'expect': ('EFFECT.argument', 'convert_unit'),
@@ -1059,6 +1341,46 @@ MUTANTS = [
     {'name': 'helper clips negative wavenumbers', 'expect': ('SHAPE.helper', 'wavenumber_to_temp'),
      'edits': [(K_, "    return wavenumber * c('cm/s') * h('J s') / kb('J/K')",
                 "    return np.maximum(wavenumber, 0.) * c('cm/s') * h('J s') / kb('J/K')")]},
+    # white-box round 3
+    {'name': 'a copy of the array is scaled in place (integer arrays cannot hold the result)',
+     'expect': ('SHAPE.convert', 'convert_unit'),
+     'edits': [(K_, _LIN, "        if isinstance(num, np.ndarray):\n            result = num.copy()\n"
+                "            result *= unit_dict[final] / unit_dict[initial]\n            return result\n" + _LIN)]},
+    {'name': 'molar energies passed through to the plain energy unit', 'expect': ('ORDER.refuse', 'convert_unit'),
+     'edits': [(K_, _TYPES, "    molar = ('J/mol', 'kJ/mol', 'cal/mol', 'kcal/mol')\n"
+                "    if (initial in molar and initial[:-4] == final) or (final in molar and final[:-4] == initial):\n"
+                "        final_type = initial_type\n" + _TYPES)]},
+    {'name': 'lengths accepted where an area of the same unit is asked for', 'expect': ('ORDER.refuse', 'convert_unit'),
+     'edits': [(K_, _TYPES, "    if initial + '2' == final:\n        final_type = initial_type\n" + _TYPES)]},
+    {'name': 'lru_cache on convert_unit: arrays are unhashable', 'expect': ('SHAPE.convert', 'convert_unit'),
+     'edits': [(K_, "import numpy as np\n", "import functools\n\nimport numpy as np\n"),
+               (K_, "def convert_unit(num=None, initial=None, final=None):",
+                "@functools.lru_cache(maxsize=None)\ndef convert_unit(num=None, initial=None, final=None):")]},
+    {'name': 'array entries next to zero flushed to zero', 'expect': ('SHAPE.convert', 'convert_unit'),
+     'edits': [(K_, _LIN, _LIN + "\n        if isinstance(num, np.ndarray):\n"
+                "            result[(num > -1.e-12) & (num < 1.e-12)] = 0.")]},
+    {'name': 'array entries above 1e12 refused', 'expect': ('SHAPE.convert', 'convert_unit'),
+     'edits': [(K_, _LIN, "        if isinstance(num, np.ndarray) and np.any(num > 1.e12):\n"
+                "            raise ValueError('overflow')\n" + _LIN)]},
+    {'name': 'Celsius and Fahrenheit below absolute zero refused', 'expect': ('SHAPE.temp', 'convert_unit'),
+     'edits': [(K_, _TEMP, "        if (initial == 'C' and np.any(num < -273.15)) or (initial == 'F' and np.any(num < -459.67)):\n"
+                "            raise ValueError('below absolute zero')\n" + _TEMP)]},
+    {'name': 'numbers between 1e-40 and 1e-35 flushed to zero', 'expect': ('SHAPE.convert', 'convert_unit'),
+     'edits': [(K_, _LIN, "        if 1.e-40 < num < 1.e-35:\n            num = 0.\n" + _LIN)]},
+    {'name': 'helper flushes wavenumbers below 1e-40 to zero', 'expect': ('SHAPE.helper', 'wavenumber_to_temp'),
+     'edits': [(K_, _W2T, "    if wavenumber < 1.e-40:\n        return 0.\n" + _W2T)]},
+    {'name': 'helper flushes small entries of an array to zero', 'expect': ('BRANCH-TWIN.helper', 'wavenumber_to_temp'),
+     'edits': [(K_, _W2T, "    if isinstance(wavenumber, np.ndarray):\n        result = " + _W2T.strip()[7:] + "\n"
+                "        result[wavenumber < 1.e-3] = 0.\n        return result\n" + _W2T)]},
+    {'name': 'c in cm/s derived from the SI row with the factor the wrong way round', 'expect': ('TABLE.const', 'constants.c'),
+     'edits': [(K_, "        'cm/s': 299792458.e2,\n    }\n", "    }\n    c_dict['cm/s'] = c_dict['m/s'] / 100.\n")]},
+    {'name': 'c in km/s added with the wrong exponent', 'expect': ('TABLE.const', 'constants.c'),
+     'edits': [(K_, "        'cm/s': 299792458.e2,\n", "        'cm/s': 299792458.e2,\n        'km/s': 299792458.e-2,\n")]},
+    {'name': 'kilo rows of kb derived from the base rows with the factor the wrong way round',
+     'expect': ('TABLE.const', 'constants.kb'),
+     'edits': [(K_, "        'kJ/K': 1.38064852e-26,\n", ""), (K_, "        'kcal/K': 3.2998292e-27,\n", ""),
+               (K_, "    try:\n        return kb_dict[units]", "    for unit in ('J/K', 'cal/K'):\n"
+                "        kb_dict['k' + unit] = kb_dict[unit] * 1.e3\n    try:\n        return kb_dict[units]")]},
 ]
 
 # behaviour-preserving rewrites (white-box round 2, part B, reduced to their essential edits): must stay silent
@@ -1083,4 +1405,20 @@ EQUIV = [
     {'name': 'symbol rows of three elements derived from the number rows',
      'edits': [(K_, _AW_END, _AW_END + "atomic_weight.update({_s: atomic_weight[_z] for _z, _s in "
                 "enumerate(['H', 'He', 'Li'], start=1)})\n")]},
+    # white-box round 3, part B
+    {'name': 'a dedicated subclass of ValueError for incompatible units',
+     'edits': [(K_, "def convert_unit(num=None, initial=None, final=None):", "class IncompatibleUnitsError(ValueError):\n"
+                "    pass\n\n\ndef convert_unit(num=None, initial=None, final=None):"),
+               (K_, "                   ''.format(initial, initial_type, final, final_type))\n        raise ValueError(err_msg)",
+                "                   ''.format(initial, initial_type, final, final_type))\n        raise IncompatibleUnitsError(err_msg)")]},
+    {'name': 'c in cm/s derived from the SI row',
+     'edits': [(K_, "        'cm/s': 299792458.e2,\n    }\n", "    }\n    c_dict['cm/s'] = c_dict['m/s'] * 100.\n")]},
+    {'name': 'the factors kept in a display inside the display convert_unit consults',
+     'edits': [(K_, "    unit_dict = {\n        'J': 1.,\n", "    unit_dict = {'factors': {\n        'J': 1.,\n"),
+               (K_, "        'psi': 0.000145038\n    }\n", "        'psi': 0.000145038\n    }}\n"),
+               (K_, _LIN, "        result = num * unit_dict['factors'][final] / unit_dict['factors'][initial]")]},
+    {'name': 'kilo rows of kb derived from the base rows',
+     'edits': [(K_, "        'kJ/K': 1.38064852e-26,\n", ""), (K_, "        'kcal/K': 3.2998292e-27,\n", ""),
+               (K_, "    try:\n        return kb_dict[units]", "    for unit in ('J/K', 'cal/K'):\n"
+                "        kb_dict['k' + unit] = kb_dict[unit] * 1.e-3\n    try:\n        return kb_dict[units]")]},
 ]
